@@ -61,7 +61,7 @@ def fmt_term(t) -> str:
     if k == 'const':
         return repr(t[1])
     if k == 'param':
-        return t[2]
+        return str(t[-1])
     if k == 'self':
         return 'self'
     if k == 'attr':
@@ -825,7 +825,7 @@ class Interp:
         t = v.term
         if t[0] == 'const':
             yield from self._decided(node, ('truth', t), bool(t[1]), st)
-        elif t[0] in ('new', 'self', 'closure', 'lambda', 'func', 'boundmethod'):
+        elif t[0] in ('new', 'self', 'closure', 'lambda', 'func', 'boundmethod', 'appcallable'):
             yield from self._decided(node, ('truth', t), True, st)
         elif t[0] == 'not':
             for s, tr, out in self._branch(node, ('truth', t[1]), st):
@@ -842,7 +842,7 @@ class Interp:
                 x = ta if tb == ('const', None) else tb
                 if x[0] == 'const':
                     yield from self._decided(node, ('isnone', x), (x[1] is None) != neg, st)
-                elif x[0] in ('new', 'self', 'closure', 'lambda'):
+                elif x[0] in ('new', 'self', 'closure', 'lambda', 'appcallable'):
                     yield from self._decided(node, ('isnone', x), False != neg, st)
                 else:
                     for s, tr, out in self._branch(node, ('isnone', x), st):
@@ -1540,6 +1540,8 @@ class Interp:
             return {'kind': 'builtin', 'name': t[1]}
         if t[0] == 'lambda':
             return {'kind': 'lambda', 'name': '<lambda>', 'term': t}
+        if t[0] == 'appcallable':
+            return {'kind': 'app', 'name': label, 'recv': recv, 'value': v}
         return {'kind': 'unknown', 'name': label, 'value': v}
 
     def _funcs_by_qual(self, q: str) -> List[FuncInfo]:
@@ -1560,7 +1562,7 @@ class Interp:
         bt = base.term
         if (bt, name) in st.heap:
             hv = st.heap[(bt, name)]
-            if hv.term[0] in ('func', 'closure', 'lambda', 'class'):
+            if hv.term[0] in ('func', 'closure', 'lambda', 'class', 'appcallable'):
                 return self._callee_from_value(hv, None, name, st)
         if bt[0] == 'module':
             m = self.repo.modules[bt[1]]
@@ -1696,6 +1698,13 @@ class Interp:
             self.stats[how if how in self.stats else 'unknown'] = self.stats.get(how, 0) + 1
             if how in ('app', 'atomic_repo'):
                 st.epoch += 1
+            if how in ('app', 'unknown'):
+                # objects created on this path and handed to application code escape: the callee may call back
+                # into them (publisher.subscribe(subscriber) -> subscriber.on_subscribe) - forget their fields
+                escaped = [a.term for a in list(pos) + list(kw.values()) if a.term[0] == 'new']
+                if escaped:
+                    for hk in [hk for hk in st.heap if hk[0] in escaped]:
+                        del st.heap[hk]
             if raises:
                 sr = st.fork()
                 exc = AVal(('exc', 'AppException'), None)
